@@ -510,9 +510,10 @@ Section TagInv.
   Lemma take_trailing_fragments_Q b :
     wb_Q b -> wb_Q (fst (take_trailing_fragments b)) /\ Forall elem_Q (snd (take_trailing_fragments b)).
   Proof.
-    intros Hb. unfold take_trailing_fragments. destruct (word_is_empty (wword b)); cbn [fst snd].
-    - split; [apply wb_Q_set_word; [exact Hb|constructor]|apply Hb].
-    - split; [exact Hb|constructor].
+    intros Hb. rewrite WrapInv.ttf_eq. cbn [fst snd].
+    assert (Hw : Forall elem_Q (wword b)) by apply Hb.
+    rewrite (WrapInv.tfr_app (wword b)) in Hw. apply Forall_app in Hw. destruct Hw as [Hp Ht].
+    split; [apply wb_Q_set_word; [exact Hb|exact Hp]|exact Ht].
   Qed.
 
   Lemma tab_loop_Q : forall fuel b t tw pos one fl r,
